@@ -29,6 +29,7 @@ type Part struct {
 	Rev    bool // read on the reverse strand
 	Ord    bool // nearest enclosing list is an order(...)
 	InList bool // member of a join/order list
+	Group  int  // identifies the nearest enclosing list within one location (0: none)
 }
 
 // Atom is one denoted thing: a residue or a zero-length site.
@@ -55,42 +56,45 @@ func (a Atom) String() string {
 
 // Parts lists the contiguous parts of loc in reading order (5'->3').
 func Parts(loc gts.Location) []Part {
-	return parts(loc, false, false, false)
+	g := 0
+	return parts(loc, false, false, false, 0, &g)
 }
 
-func parts(loc gts.Location, rev, ord, inList bool) []Part {
+func parts(loc gts.Location, rev, ord, inList bool, group int, next *int) []Part {
 	switch v := loc.(type) {
 	case nil:
-		return []Part{{Kind: KNil, Rev: rev, Ord: ord, InList: inList}}
+		return []Part{{Kind: KNil, Rev: rev, Ord: ord, InList: inList, Group: group}}
 	case gts.Point:
-		return []Part{{Kind: KPoint, Lo: int(v), Hi: int(v) + 1, Rev: rev, Ord: ord, InList: inList}}
+		return []Part{{Kind: KPoint, Lo: int(v), Hi: int(v) + 1, Rev: rev, Ord: ord, InList: inList, Group: group}}
 	case gts.Between:
-		return []Part{{Kind: KSite, Lo: int(v), Hi: int(v), Rev: rev, Ord: ord, InList: inList}}
+		return []Part{{Kind: KSite, Lo: int(v), Hi: int(v), Rev: rev, Ord: ord, InList: inList, Group: group}}
 	case gts.Ranged:
-		return []Part{{Kind: KRange, Lo: v.Start, Hi: v.End, OpenLo: v.Partial.Partial5, OpenHi: v.Partial.Partial3, Rev: rev, Ord: ord, InList: inList}}
+		return []Part{{Kind: KRange, Lo: v.Start, Hi: v.End, OpenLo: v.Partial.Partial5, OpenHi: v.Partial.Partial3, Rev: rev, Ord: ord, InList: inList, Group: group}}
 	case gts.Ambiguous:
-		return []Part{{Kind: KAmb, Lo: v.Start, Hi: v.End, Rev: rev, Ord: ord, InList: inList}}
+		return []Part{{Kind: KAmb, Lo: v.Start, Hi: v.End, Rev: rev, Ord: ord, InList: inList, Group: group}}
 	case gts.Joined:
-		return listParts([]gts.Location(v), rev, false)
+		return listParts([]gts.Location(v), rev, false, next)
 	case gts.Ordered:
-		return listParts([]gts.Location(v), rev, true)
+		return listParts([]gts.Location(v), rev, true, next)
 	case gts.Complemented:
-		return parts(v.Location, !rev, ord, inList)
+		return parts(v.Location, !rev, ord, inList, group, next)
 	default:
 		return []Part{{Kind: KUnknown, Rev: rev}}
 	}
 }
 
-func listParts(ll []gts.Location, rev, ord bool) []Part {
+func listParts(ll []gts.Location, rev, ord bool, next *int) []Part {
+	*next++
+	group := *next
 	var out []Part
 	if !rev {
 		for _, l := range ll {
-			out = append(out, parts(l, rev, ord, true)...)
+			out = append(out, parts(l, rev, ord, true, group, next)...)
 		}
 		return out
 	}
 	for i := len(ll) - 1; i >= 0; i-- {
-		out = append(out, parts(ll[i], rev, ord, true)...)
+		out = append(out, parts(ll[i], rev, ord, true, group, next)...)
 	}
 	return out
 }
